@@ -22,11 +22,12 @@ Main results
                                every condition is therefore necessary (given the others) and together
                                they are sufficient; header rules that need no condition (version,
                                height, previousBlockID, maxHeightPrevoted, signature length, the vote
-                               update and `getABIConsensus` succeeding) hold by construction;
+                               update and `getABIConsensus` succeeding, `validatorsHash`, admissibility
+                               of a validator change) hold by construction;
 * `C15_verifier_contradiction_rule`  the verifier's contradiction rule in terms of the C07 specification;
 * `C15_forged_block_accepted`  sufficiency from natural hypotheses `C15Healthy` (clock in the slot,
-                               registered key, deterministic application, limits agree, no validator
-                               change) + generator database covers the own blocks of the BFT window;
+                               registered key, deterministic application, limits agree) + generator
+                               database covers the own blocks of the BFT window;
 * `C15_own_blocks_covered`     the database hypothesis follows from the generator model for EVERY
                                history of forge / delete / switch / restart / crash (fixed rule);
 * `C15_chain_invariant_preserved` / `_reachable` / `_genesis` / `_window_on_chain`
@@ -36,11 +37,17 @@ Main results
                                the aggregate-commit hypothesis follows from C06 (`GetAggregateCommit` of a
                                pool satisfying the pool invariant), through the view `C15CertView`;
 * `C15_correspondence_commutes`  `C15gstate` commutes with `forge v applied` / `processValidated`;
+* `C15_forged_block_accepted_with_validator_change`  … also when the application answers
+                               `AfterTransactionsExecute` with a validator / threshold change
+                               (`C15forge` models the generator after
+                               /verif/fixes/C15-generator-validator-update.patch: the update is applied
+                               to the dry-run store before `sealBlock` hashes the parameters of height+1);
+* `C15forgeOrig`, `C15_cx_validator_change_rejected`, `C15_forge_orig_eq_of_no_change`
+                               the ORIGINAL generator dropped the update: its block is rejected by the own
+                               node (`validatorsHash`; confirmed on the real generator + verifier); without
+                               an update both versions forge the same block;
 * `C15_cx_*`                   concrete counterexamples: each environment hypothesis dropped gives a
-                               forged block the node rejects (among them `C15_cx_validator_change_rejected`:
-                               the application answering `AfterTransactionsExecute` with a validator
-                               change — the generator ignores it when it computes `validatorsHash`;
-                               confirmed on the real generator + verifier);
+                               forged block the node rejects;
 * `C15_contradiction_iff` / `C15_no_self_contradiction_pairwise` / `C15_contradiction_only_on_worse_tip` /
   `C15_reforge_same_tip_contradicts`
                                no-self-contradiction without the global hypothesis of
@@ -103,7 +110,8 @@ structure C15Replay where
   eventRootOK : Bool := true
   commitOK : Bool := true
   nEvents : Nat := 0
-  /-- the parameter update `AfterTransactionsExecute` answers with (the generator ignores it) -/
+  /-- the parameter update `AfterTransactionsExecute` answers with — during generation and on replay
+  (the original generator ignored it: `C15forgeOrig`) -/
   change : Option Change := none
 
 /-- the validator `forge` generates for: the generator of the slot of `clockSlot` at height tip+1,
@@ -132,8 +140,8 @@ def C15sealed (addr : Nat → Bytes) (n : Node) (f : C15Forge) (r : C15Replay) (
     nEvents := r.nEvents, eventRootOK := r.eventRootOK, commitOK := r.commitOK }
 
 /-- the fact "validatorsHash matches": `sealBlock` hashes (`vh`) the parameters `p` it finds for
-height+1 in its store `s1` (vote update applied, the application's parameter update NOT applied);
-the verifier compares with the parameters of height+1 after applying the update -/
+height+1 in its dry-run store; the verifier compares with the parameters of height+1 after applying
+the application's parameter update `change` to the store `s1` (vote update applied) -/
 def C15vhOK (vh : BFT.Params → Bytes) (s1 : BFT.State) (change : Option Change) (height : Nat)
     (p : BFT.Params) : Bool :=
   match applyChange s1 change with
@@ -143,9 +151,11 @@ def C15vhOK (vh : BFT.Params → Bytes) (s1 : BFT.State) (change : Option Change
     | none => true
     | some p2 => decide (vh p2 = vh p)
 
-/-- `Generator.forge` on node `n`: `none` where the Go function returns without a block -/
-def C15forge (addr : Nat → Bytes) (vh : BFT.Params → Bytes) (n : Node) (f : C15Forge) (r : C15Replay) :
-    Option Cand :=
+/-- the part of `Generator.forge` up to `abi.BeforeTransactionsExecute`: validator, aggregate
+commit, the block before `validatorsHash` is known, and the dry-run consensus store after the vote
+update (`none` where the Go function returns without a block) -/
+def C15prepare (addr : Nat → Bytes) (n : Node) (f : C15Forge) (r : C15Replay) :
+    Option (Nat × AC × BFT.State) :=
   match C15slotValidator addr n f with
   | none => none
   | some v =>
@@ -155,12 +165,36 @@ def C15forge (addr : Nat → Bytes) (vh : BFT.Params → Bytes) (n : Node) (f : 
       let b := C15sealed addr n f r v ac
       match storeAfterBFT n b with
       | none => none                                 -- BFTBeforeTransactionsExecute failed
-      | some s1 =>
-        if consensusInfoOK s1 b then
-          match BFT.getParams s1 (b.height + 1) with
-          | none => none                             -- sealBlock: GetBFTParameters(height+1) failed
-          | some p => some { b with vhOK := C15vhOK vh s1 r.change b.height p }
-        else none                                    -- getABIConsensus failed
+      | some s1 => if consensusInfoOK s1 b then some (v, ac, s1) else none   -- getABIConsensus failed
+
+/-- `Generator.forge` on node `n` (`none` where the Go function returns without a block), with
+/verif/fixes/C15-generator-validator-update.patch: `AfterTransactionsExecute` applies the
+application's parameter update to the dry-run store (`SetBFTParameters` + `SetGeneratorKeys`, as the
+block execution does), and `sealBlock` hashes the parameters of height+1 it finds THERE. -/
+def C15forge (addr : Nat → Bytes) (vh : BFT.Params → Bytes) (n : Node) (f : C15Forge) (r : C15Replay) :
+    Option Cand :=
+  match C15prepare addr n f r with
+  | none => none
+  | some (v, ac, s1) =>
+    let b := C15sealed addr n f r v ac
+    match applyChange s1 r.change with
+    | none => none                                   -- AfterTransactionsExecute: SetBFTParameters failed
+    | some s2 =>
+      match BFT.getParams s2 (b.height + 1) with
+      | none => none                                 -- sealBlock: GetBFTParameters(height+1) failed
+      | some p => some { b with vhOK := C15vhOK vh s1 r.change b.height p }
+
+/-- the ORIGINAL code (before the patch): the generator drops the parameter update of
+`AfterTransactionsExecute`; `sealBlock` hashes the parameters of height+1 WITHOUT it -/
+def C15forgeOrig (addr : Nat → Bytes) (vh : BFT.Params → Bytes) (n : Node) (f : C15Forge) (r : C15Replay) :
+    Option Cand :=
+  match C15prepare addr n f r with
+  | none => none
+  | some (v, ac, s1) =>
+    let b := C15sealed addr n f r v ac
+    match BFT.getParams s1 (b.height + 1) with
+    | none => none
+    | some p => some { b with vhOK := C15vhOK vh s1 r.change b.height p }
 
 /-- a block info of the BFT window as a header of the contradiction check -/
 def C15infoHdr (b : BFT.BlockInfo) : Hdr :=
@@ -170,7 +204,8 @@ def C15infoHdr (b : BFT.BlockInfo) : Hdr :=
 
 /-- The conditions on the environment under which the block forged for validator `v` is accepted.
 Nothing is required for: version, height, previousBlockID, maxHeightPrevoted, signature length,
-success of the vote update and of `getABIConsensus` (they hold by construction). -/
+success of the vote update and of `getABIConsensus`, admissibility of a validator / threshold change
+answered by the application and `validatorsHash` (they hold by construction). -/
 structure C15EnvOK (addr : Nat → Bytes) (n : Node) (f : C15Forge) (r : C15Replay) (v : Nat) (b : Cand) : Prop where
   /-- ids are 32 bytes, addresses 20 bytes -/
   idLengths : n.tipID.length = 32 ∧ (addr v).length = 20
@@ -202,9 +237,6 @@ structure C15EnvOK (addr : Nat → Bytes) (n : Node) (f : C15Forge) (r : C15Repl
   application : r.abiInit = true ∧ r.abiVerifyAssets = true ∧ r.abiBefore = true ∧ r.abiAfter = true ∧
     r.assets = AssetsV.ok ∧ r.txRootOK = true ∧ r.assetRootOK = true ∧ r.eventRootOK = true ∧
     r.commitOK = true ∧ r.nEvents ≤ maxEventsPerBlock
-  /-- the application does not change the validators / thresholds in this block, or the change is
-  admissible and leaves the hash of the parameters of height+1 unchanged -/
-  paramChange : r.change = none ∨ (changeOK n b = true ∧ nextParamsOK n b = true ∧ b.vhOK = true)
 
 /-! ## unpacking `C15forge` -/
 
@@ -224,38 +256,57 @@ theorem C15_slotValidator_some {addr : Nat → Bytes} {n : Node} {f : C15Forge} 
       simp only [decide_eq_true_eq] at h1
       exact ⟨gens, hk, by rw [hg, h1], h2⟩
 
+theorem C15_prepare_some {addr : Nat → Bytes} {n : Node} {f : C15Forge} {r : C15Replay} {v : Nat} {ac : AC}
+    {s1 : BFT.State} (h : C15prepare addr n f r = some (v, ac, s1)) :
+    C15slotValidator addr n f = some v ∧ f.ac = some ac ∧
+      storeAfterBFT n (C15sealed addr n f r v ac) = some s1 ∧
+      consensusInfoOK s1 (C15sealed addr n f r v ac) = true := by
+  unfold C15prepare at h
+  split at h
+  · cases h
+  · rename_i v' hv
+    split at h
+    · cases h
+    · rename_i ac' hac
+      simp only at h
+      split at h
+      · cases h
+      · rename_i s1' hs1
+        split at h
+        · rename_i hinfo
+          simp only [Option.some.injEq, Prod.mk.injEq] at h
+          obtain ⟨rfl, rfl, rfl⟩ := h
+          exact ⟨hv, hac, hs1, hinfo⟩
+        · cases h
+
 theorem C15_forge_some {addr : Nat → Bytes} {vh : BFT.Params → Bytes} {n : Node} {f : C15Forge}
     {r : C15Replay} {b : Cand} (h : C15forge addr vh n f r = some b) :
-    ∃ v ac s1 p, C15slotValidator addr n f = some v ∧ f.ac = some ac ∧
+    ∃ v ac s1 s2 p, C15slotValidator addr n f = some v ∧ f.ac = some ac ∧
       storeAfterBFT n (C15sealed addr n f r v ac) = some s1 ∧
       consensusInfoOK s1 (C15sealed addr n f r v ac) = true ∧
-      BFT.getParams s1 (n.tipHeight + 1 + 1) = some p ∧
+      applyChange s1 r.change = some s2 ∧
+      BFT.getParams s2 (n.tipHeight + 1 + 1) = some p ∧
       b = { C15sealed addr n f r v ac with vhOK := C15vhOK vh s1 r.change (n.tipHeight + 1) p } := by
   unfold C15forge at h
   split at h
   · cases h
-  · rename_i v hv
+  · rename_i v ac s1 hprep
+    obtain ⟨hv, hac, hs1, hinfo⟩ := C15_prepare_some hprep
+    simp only at h
     split at h
     · cases h
-    · rename_i ac hac
-      simp only at h
+    · rename_i s2 hs2
       split at h
       · cases h
-      · rename_i s1 hs1
-        split at h
-        · rename_i hinfo
-          split at h
-          · cases h
-          · rename_i p hp
-            simp only [Option.some.injEq] at h
-            exact ⟨v, ac, s1, p, hv, hac, hs1, hinfo, hp, h.symm⟩
-        · cases h
+      · rename_i p hp
+        simp only [Option.some.injEq] at h
+        exact ⟨v, ac, s1, s2, p, hv, hac, hs1, hinfo, hs2, hp, h.symm⟩
 
 /-- the validator a forged block was generated for -/
 theorem C15_forge_validator {addr : Nat → Bytes} {vh : BFT.Params → Bytes} {n : Node} {f : C15Forge}
     {r : C15Replay} {b : Cand} (h : C15forge addr vh n f r = some b) :
     ∃ v, C15slotValidator addr n f = some v ∧ b.gen = addr v := by
-  obtain ⟨v, ac, s1, p, hv, _, _, _, _, hb⟩ := C15_forge_some h
+  obtain ⟨v, ac, s1, s2, p, hv, _, _, _, _, _, hb⟩ := C15_forge_some h
   exact ⟨v, hv, by rw [hb]; rfl⟩
 
 /-! ## the contradiction rule of the verifier in terms of the LIP-0014 specification (C07) -/
@@ -286,13 +337,14 @@ theorem C15_verifier_contradiction_rule (s : BFT.State) (b : Cand) :
 
 /-! ## accepted iff the environment conditions hold -/
 
-private theorem no_change_ok (vh : BFT.Params → Bytes) (n : Node) (b : Cand) (s1 : BFT.State) (p : BFT.Params)
-    (hs : storeAfterBFT n b = some s1) (hc : b.change = none) (hp : BFT.getParams s1 (b.height + 1) = some p) :
-    changeOK n b = true ∧ nextParamsOK n b = true ∧ C15vhOK vh s1 none b.height p = true := by
+private theorem change_ok (vh : BFT.Params → Bytes) (n : Node) (b : Cand) (s1 s2 : BFT.State) (p : BFT.Params)
+    (hs : storeAfterBFT n b = some s1) (hc : applyChange s1 b.change = some s2)
+    (hp : BFT.getParams s2 (b.height + 1) = some p) :
+    changeOK n b = true ∧ nextParamsOK n b = true ∧ C15vhOK vh s1 b.change b.height p = true := by
   refine ⟨?_, ?_, ?_⟩
-  · unfold changeOK; rw [hs, hc]; rfl
-  · unfold nextParamsOK storeAfterExec; rw [hs, hc]; simp only [applyChange]; rw [hp]; rfl
-  · unfold C15vhOK; simp only [applyChange]; rw [hp]; simp
+  · unfold changeOK; rw [hs]; simp only; rw [hc]; rfl
+  · unfold nextParamsOK storeAfterExec; rw [hs]; simp only; rw [hc]; simp only; rw [hp]; rfl
+  · unfold C15vhOK; rw [hc]; simp only; rw [hp]; simp
 
 /-- **Generated blocks are valid — exact form.**  The block `forge` produces for validator `v` on node
 `n` is accepted by `Block.Validate` + `processValidated` of the same node (same consensus store, the
@@ -300,7 +352,7 @@ verifier's clock `n.cfg.now`) if and only if the environment conditions `C15EnvO
 theorem C15_forged_accept_iff (addr : Nat → Bytes) (vh : BFT.Params → Bytes) (n : Node) (f : C15Forge)
     (r : C15Replay) (v : Nat) (b : Cand) (hv : C15slotValidator addr n f = some v)
     (hb : C15forge addr vh n f r = some b) : accepts n b ↔ C15EnvOK addr n f r v b := by
-  obtain ⟨v', ac, s1, p, hv', hac, hs1, hinfo, hp, hbeq⟩ := C15_forge_some hb
+  obtain ⟨v', ac, s1, s2, p, hv', hac, hs1, hinfo, hs2, hp, hbeq⟩ := C15_forge_some hb
   rw [hv] at hv'
   cases hv'
   obtain ⟨gens, hkeys, hgen, _⟩ := C15_slotValidator_some hv
@@ -333,8 +385,7 @@ theorem C15_forged_accept_iff (addr : Nat → Bytes) (vh : BFT.Params → Bytes)
         payloadSize := by have := hS.payloadSize; rwa [hpay] at this
         static := ?_
         replay := ?_
-        application := ?_
-        paramChange := Or.inr ⟨hS.executes.2.2.2.2.2.2.2.1, hS.executes.2.2.2.2.2.2.2.2.1, hS.validatorsHash⟩ }
+        application := ?_ }
     · intro gens' hk'
       rw [hkeys] at hk'
       cases hk'
@@ -372,13 +423,10 @@ theorem C15_forged_accept_iff (addr : Nat → Bytes) (vh : BFT.Params → Bytes)
   · intro hE
     obtain ⟨a1, a2, a3, a4, a5, a6, a7, a8, a9, a10⟩ := hE.application
     have hpc : changeOK n b = true ∧ nextParamsOK n b = true ∧ b.vhOK = true := by
-      rcases hE.paramChange with hnone | h3
-      · have hcn : b.change = none := by rw [hchange, hnone]
-        have := no_change_ok vh n b s1 p hstore hcn (by rw [hheight]; exact hp)
-        refine ⟨this.1, this.2.1, ?_⟩
-        rw [hvh, hnone, ← hheight]
-        exact this.2.2
-      · exact h3
+      have := change_ok vh n b s1 s2 p hstore (by rw [hchange]; exact hs2) (by rw [hheight]; exact hp)
+      refine ⟨this.1, this.2.1, ?_⟩
+      rw [hvh, ← hchange, ← hheight]
+      exact this.2.2
     refine
       { version := by rw [hbeq]; rfl
         height := hheight
@@ -468,8 +516,6 @@ structure C15Healthy (addr : Nat → Bytes) (n : Node) (f : C15Forge) (r : C15Re
   application : r.abiInit = true ∧ r.abiVerifyAssets = true ∧ r.abiBefore = true ∧ r.abiAfter = true ∧
     r.assets = AssetsV.ok ∧ r.txRootOK = true ∧ r.assetRootOK = true ∧ r.eventRootOK = true ∧
     r.commitOK = true ∧ r.nEvents ≤ maxEventsPerBlock
-  /-- the application does not change validators / thresholds in this block -/
-  noChange : r.change = none
 
 /-- **Generated blocks are valid.**  In a healthy environment, if the generator database covers the
 validator's own blocks of the BFT window (`ownBlocks`: stored height ≥ their height and their
@@ -496,8 +542,7 @@ theorem C15_forged_block_accepted (addr : Nat → Bytes) (vh : BFT.Params → By
       payloadSize := Nat.le_trans sel1 hh.sizeLimit
       static := fun t ht => hh.poolStatic t (sel3 t ht)
       replay := replayTxs_good f.ok r.verdict _ hh.deterministic _ _ sel2
-      application := hh.application
-      paramChange := Or.inl hh.noChange }
+      application := hh.application }
   intro b0 hf
   have hm := List.mem_of_find?_eq_some hf
   have hg := List.find?_some hf
@@ -508,6 +553,51 @@ theorem C15_forged_block_accepted (addr : Nat → Bytes) (vh : BFT.Params → By
   unfold C07LegitSucc
   simp only [C15infoHdr, mkHeader, C15gstate]
   omega
+
+/-- **Generated blocks are valid — also when the application changes validators or thresholds.**
+(Behaviour after /verif/fixes/C15-generator-validator-update.patch.)  In a healthy environment —
+nothing is assumed about the parameter update `c` the application answers `AfterTransactionsExecute`
+with — every block `forge` produces is accepted by the same node, and the node's consensus store
+afterwards is the store after the vote update with `c` applied (`SetBFTParameters` +
+`SetGeneratorKeys`): the `validatorsHash` the generator put into the header is the hash of the
+parameters that are valid from the next height on.  (An inadmissible update makes
+`AfterTransactionsExecute` fail in the generator: no block is produced.) -/
+theorem C15_forged_block_accepted_with_validator_change (addr : Nat → Bytes) (vh : BFT.Params → Bytes)
+    (n : Node) (f : C15Forge) (r : C15Replay) (b : Cand) (c : Change) (hc : r.change = some c)
+    (hh : C15Healthy addr n f r)
+    (ownBlocks : ∀ v ∈ f.enabled, ∀ b0 ∈ n.bft.infos, b0.gen = addr v →
+      b0.height ≤ (getInfo f.db v).height ∧ b0.mhg ≤ (getInfo f.db v).height)
+    (chain : ∀ b0 ∈ n.bft.infos, b0.height ≤ n.tipHeight ∧ b0.mhp ≤ n.bft.mhp)
+    (hb : C15forge addr vh n f r = some b) :
+    accepts n b ∧ b.change = some c ∧ b.vhOK = true ∧
+    ∃ s1 s2, storeAfterBFT n b = some s1 ∧ applyChange s1 (some c) = some s2 ∧
+      (applyBlock n b).1.bft = s2 := by
+  have hacc := C15_forged_block_accepted addr vh n f r b hh ownBlocks chain hb
+  obtain ⟨v, ac, s1, s2, p, _, _, hs1, _, hs2, _, hbeq⟩ := C15_forge_some hb
+  have hchange : b.change = r.change := by rw [hbeq]; rfl
+  have hstore : storeAfterBFT n b = some s1 := by rw [hbeq]; exact hs1
+  obtain ⟨s2', hexec, hn'⟩ := C03_accept_effect n b hacc
+  have hs2' : s2' = s2 := by
+    unfold storeAfterExec at hexec
+    rw [hstore, hchange] at hexec
+    simp only at hexec
+    rw [hs2] at hexec
+    exact (Option.some.inj hexec).symm
+  refine ⟨hacc, by rw [hchange, hc], ((accepts_iff n b).mp hacc).validatorsHash, s1, s2, hstore, ?_, ?_⟩
+  · rw [← hc]; exact hs2
+  · rw [← hs2']; exact hn'.2.2.2.1
+
+/-- Where the application changes nothing, the original code and the patched code forge the same
+block: everything proved about `C15forge` holds for the original generator on such inputs. -/
+theorem C15_forge_orig_eq_of_no_change (addr : Nat → Bytes) (vh : BFT.Params → Bytes) (n : Node)
+    (f : C15Forge) (r : C15Replay) (hc : r.change = none) :
+    C15forgeOrig addr vh n f r = C15forge addr vh n f r := by
+  unfold C15forgeOrig C15forge
+  cases C15prepare addr n f r with
+  | none => rfl
+  | some x =>
+    obtain ⟨v, ac, s1⟩ := x
+    simp only [hc, applyChange]
 
 /-! ### the generator database covers the own blocks: from the generator model, for every history -/
 
@@ -1000,8 +1090,7 @@ example : C15Healthy C15xAddr (C15xNode 1017) C15xForge C15xReplay ∧ C15ChainI
       sizeLimit := by decide +kernel
       poolStatic := fun _ _ => rfl
       deterministic := ?_
-      application := by decide +kernel
-      noChange := rfl }
+      application := by decide +kernel }
   · intro a ha
     cases ha
     left
@@ -1098,23 +1187,34 @@ def C15xChange (w0 : Nat) : Change :=
   { precommit := 2, cert := 2, validators := [⟨C15xAddr 0, w0⟩, ⟨C15xAddr 1, 1⟩],
     generators := [C15xAddr 0, C15xAddr 1] }
 
-/-- Hypothesis `noChange` is needed — **the generator ignores the validator update**: when the
-application answers `AfterTransactionsExecute` with new validator weights (admissible: weights 2 and
-1, thresholds 2), the verifier applies them and expects `validatorsHash` to be the hash of the NEW
-parameters of height+1; `sealBlock` hashed the parameters it found without the update.  The node
-rejects its own block. -/
+/-- verdict of the node on the block the ORIGINAL generator (before
+/verif/fixes/C15-generator-validator-update.patch) forges -/
+def C15xVerdictOrig (n : Node) (f : C15Forge) (r : C15Replay) : Option (Option Err) :=
+  (C15forgeOrig C15xAddr C15xVh n f r).map fun b => (applyBlock n b).2
+
+/-- **The original generator ignores the validator update** (defect repaired by
+/verif/fixes/C15-generator-validator-update.patch; confirmed on the real generator + verifier): when
+the application answers `AfterTransactionsExecute` with new validator weights (admissible: weights 2
+and 1, thresholds 2), the verifier applies them and expects `validatorsHash` to be the hash of the
+NEW parameters of height+1; the original `sealBlock` hashed the parameters it found without the
+update.  The node rejects its own block … -/
 theorem C15_cx_validator_change_rejected :
-    C15xVerdict (C15xNode 1017) C15xForge
-      { C15xReplay with change := some (C15xChange 2) } =
+    C15xVerdictOrig (C15xNode 1017) C15xForge { C15xReplay with change := some (C15xChange 2) } =
       some (some Err.validatorsHash) := by
   decide +kernel
 
-/-- … while an update that leaves the parameters as they are is harmless (second disjunct of
-`C15EnvOK.paramChange`). -/
+/-- … while the patched generator's block for the same input is accepted, and the node's parameters
+of height 2 are then the changed ones (sorted by address, descending: weights 1 and 2). -/
+theorem C15_validator_change_accepted_example :
+    C15xVerdict (C15xNode 1017) C15xForge { C15xReplay with change := some (C15xChange 2) } = some none ∧
+    (C15forge C15xAddr C15xVh (C15xNode 1017) C15xForge { C15xReplay with change := some (C15xChange 2) }).map
+      (fun b => ((BFT.getParams (applyBlock (C15xNode 1017) b).1.bft 2).map
+        (fun p => p.validators.map (·.weight)))) = some (some [1, 2]) := by
+  decide +kernel
+
+/-- For the original code an update that leaves the parameters as they are was harmless, … -/
 example :
-    C15xVerdict (C15xNode 1017) C15xForge
-      { C15xReplay with change := some (C15xChange 1) } =
-      some none := by
+    C15xVerdictOrig (C15xNode 1017) C15xForge { C15xReplay with change := some (C15xChange 1) } = some none := by
   decide +kernel
 
 /-- non-vacuity of `C15_aggregate_commit_from_pool_valid` / `C15_accepted_commit_valid`: the chain
@@ -1145,7 +1245,7 @@ theorem C15_correspondence_commutes (addr : Nat → Bytes) (vh : BFT.Params → 
     C15gstate n' st'.infos = { st' with persisted := [], handedOn := [] } ∧
     st'.handedOn = [(v, C15candHdr b)] := by
   obtain ⟨s2, _, hn'⟩ := C03_accept_effect n b hacc
-  obtain ⟨v', ac, s1, p, hv', _, _, _, _, hbeq⟩ := C15_forge_some hb
+  obtain ⟨v', ac, s1, s2', p, hv', _, _, _, _, _, hbeq⟩ := C15_forge_some hb
   rw [hv] at hv'
   cases hv'
   have hheight : b.height = n.tipHeight + 1 := by rw [hbeq]; rfl
